@@ -384,6 +384,7 @@ def run(run, model):
             if _h is not None:
                 run.do(loops.verdict_rule, model, _rn, _h[0], _h[1], _h[2], _depth)
     run.do(meta.shared_member_rule, model, "C04.shared-member")
+    run.do(meta.decorate_always, model, "C04.always-merged")
     run.do(meta.namespace_rebind_rule, model, "C04.namespace-rebind")
     run.minimum("C04.pre-prov", 2)
     run.minimum("C04.post-prov", 2)
